@@ -1,4 +1,4 @@
-HOOK_COMMITS = ["c8f347152"]
+HOOK_COMMITS = ["c8f347152", "b47eca310"]
 # properties whose check the lead has run on the unchanged tree and accepted (fragments of other checks are ignored)
 READY = ["C01", "C02", "C03", "C04", "C05", "C06", "C07", "C08", "C09", "C10", "C11", "C12", "C13", "C14", "C15", "C16", "C17", "C18", "C19", "C20"]
 CHECKS = [
